@@ -1,14 +1,15 @@
 """C08 -- a sandboxed interpreter cannot reach the outside world.
 
 spec: Sandbox (capability-by-binding: configurations {bare, std, cmd, full=control}, the callable names of each,
-      derivation routes direct/alias/eval/sym/apply/macro/builder/fn, capability of the known outside-world
+      derivation routes direct/alias/eval/sym/apply/macro/builder/fn and, compiled inside a
+      duplicate of the interpreter, macrun/macexpand/expect, capability of the known outside-world
       primitives; property SandboxClosed: in a sandboxed configuration no derivation of a callable name has a capability)
 TLC:  MCSandbox over the LIVE universe (every name bound in each live configuration + macros + the special forms of
       GenerateCallBySymbol + reserved words + repl commands, dumped by `zv sandbox -dump`): the derivation closure to
-      depth 2 (quick) / 4 (thorough) with NoMinting / DeadStaysDead; a capability-minting route must be refuted
+      depth 2 (quick) / 3 (thorough) with NoMinting / DeadStaysDead; a capability-minting route must be refuted
       (self-test); SandboxClosed is model-checked as a PREDICTION (candidates, never a verdict); TLC writes the probe
       vectors configuration x name x route
-bind: the harness renders every vector under 16 argument shapes and runs every probe on the real interpreter in a
+bind: the harness renders every vector under 17 argument shapes and runs every probe on the real interpreter in a
       subprocess / on the real `zygo -sandbox` binary, in a throw-away directory with canaries (file secret, paths that
       must not appear, shell marker, environment secret, inotify), plus seeded grammar-generated programs; TLC validates
       every recorded probe against SandboxTrace: the observed event set of a sandboxed configuration is empty; the
@@ -153,8 +154,8 @@ def run():
                 "callable), plus distinct generated programs that evaluated to a value; inputs: every name of the live universe "
                 "(bound in any configuration incl. the unsandboxed one, macros, special forms of GenerateCallBySymbol, reserved "
                 "words, repl commands) x every route (names a configuration cannot call: routes direct and sym only in the quick "
-                "tier) x 16 argument shapes x {bare, std, cmd}; the unsandboxed control for the known primitives; seeded "
-                "grammar-generated programs (9 callee forms x up to 3 of 14 wrappers)",
+                "tier) x 17 argument shapes x {bare, std, cmd}; the unsandboxed control for the known primitives; seeded "
+                "grammar-generated programs (9 callee forms x up to 3 of 16 wrappers)",
         "cases": len(cases),
         "universe_names": len(u["names"]),
         "callable_names": nsand,
